@@ -12,12 +12,15 @@ quantified over arbitrary repository states: `damage_reported_or_harmless`.
 
 FULL STATEMENT (not provable of the current code):
   check z true r lk fuel = .findings [] → ∀ s ∈ r.snaps, s.authentic = true ∧ RestoresCorrectly r lk s.tree
-Missing hypotheses of the `_partial` theorems:
+Missing hypothesis of the `_partial` theorems (the first one proves the `RestoresCorrectly` half without it):
  * `SnapshotsAuthentic` — no check-side (nor read-side) comparison of a snapshot file's name with the hash
    of its content: exchanging two snapshot files is silent (DESIGN §7 #12, witness `snapshot_swap_undetected`,
    replayed on the real code by corpus/C05/snapshot_swap.ops; known finding).
- * `DirsOnly` — `check_trees` looks at the subtree of `Dir` nodes only, while the tree streamers follow the
-   subtree of any node; no archiver writes such nodes (witness `non_dir_subtree_unread`).
+Discharged: `DirsOnly` (only `Dir` nodes carry subtrees) was a hypothesis because `check_trees` looked at the subtree
+of `Dir` nodes only while the tree streamers follow the subtree of any node; a `ReadSource` can hand the archiver a
+file node with a subtree, and the real check was silent on a pack swap below it (corpus/C05/file_node_subtree.ops).
+Repaired in the code (`fix: check ignored subtrees of non-directory nodes`), modelled (`subtreeErrs`/`subtreePacks`),
+and the hypothesis is gone (witness of the repaired behaviour: `non_dir_subtree_checked`).
 Repaired: packs holding only root trees never entered the read set (DESIGN §7 #11); `check z false` is the
 code before the repair, `root_tree_pack_swap_undetected_before_fix` its witness (replayed on the real code by
 corpus/C05/root_tree_pack_swap.ops, where the repaired code now reports `PackHashMismatch`).
@@ -28,39 +31,53 @@ open Rustic.Check
 
 def SnapshotsAuthentic (r : Repo) : Prop := ∀ s ∈ r.snaps, s.authentic = true
 
-/-- (1) Soundness: a full check (`read_data`) without Error-level finding ⇒ every snapshot's trees and
-file chunks, as a restore / dump / ls reads them, are indexed, stored, MAC-valid, decode, have the recorded
-length and hash to their ids. -/
+/-- (0) **Which packs enter check's own index**: `check_packs` feeds its index collector with `index.packs` of
+every index file — the packs of the unmarked sections and nothing else; this is the pack list of the index every
+reader (restore / dump / ls: `GlobalIndex::new`) uses.  Packs that prune marked for deletion never answer a
+look-up of check. -/
+theorem check_index_is_reader_index (r : Repo) :
+    checkIndexPacks false r = livePacks r ∧
+    (∀ p ∈ checkIndexPacks false r, ∃ f ∈ r.index, p ∈ f.packs) ∧
+    (∀ lk, LkSoundOn (checkIndexPacks false r) lk ↔ LkSound r lk) := by
+  refine ⟨checkIndexPacks_false r, fun p hp => ?_, lkSound_iff_checkIndex r⟩
+  rw [checkIndexPacks_false] at hp
+  exact List.mem_flatMap.mp hp
+
+/-- (1) Soundness: a full check (`read_data`) without Error-level finding — its own index `lk` being built from
+the packs `check_packs` collects (`checkIndexPacks false`: unmarked only) — ⇒ every snapshot's trees and file
+chunks, as a restore / dump / ls reads them through that pack list, are indexed, stored, MAC-valid, decode, have
+the recorded length and hash to their ids. -/
 theorem check_ok_implies_restorable_partial (z : Sizes) (r : Repo) (lk : Lookup) (fuel : Nat)
-    (hlk : LkSound r lk) (hd : DirsOnly r lk) (h : check z true r lk fuel = .findings []) :
+    (hlk : LkSoundOn (checkIndexPacks false r) lk)
+    (h : checkW false z true r lk fuel = .findings []) :
     ∀ s ∈ r.snaps, RestoresCorrectly r lk s.tree :=
-  check_sound hlk hd h
+  check_sound ((lkSound_iff_checkIndex r lk).mp hlk) h
 
 /-- (1') … and the snapshot read is the snapshot written, when snapshot files are what their names say. -/
 theorem check_ok_implies_restores_original_partial (z : Sizes) (r : Repo) (lk : Lookup) (fuel : Nat)
-    (hlk : LkSound r lk) (hd : DirsOnly r lk) (ha : SnapshotsAuthentic r)
+    (hlk : LkSound r lk) (ha : SnapshotsAuthentic r)
     (h : check z true r lk fuel = .findings []) :
     ∀ s ∈ r.snaps, s.authentic = true ∧ RestoresCorrectly r lk s.tree :=
-  fun s hs => ⟨ha s hs, check_sound hlk hd h s hs⟩
+  fun s hs => ⟨ha s hs, check_sound hlk h s hs⟩
 
 /-- (2) Completeness in the sense of the statement: whatever happened to the stored files (remove,
 truncate, flip, swap, index entries dropped or duplicated — `r` is arbitrary), if some snapshot does not
 restore correctly then the check does not come back clean (it reports an Error or fails as a command). -/
 theorem damage_reported_or_harmless (z : Sizes) (r : Repo) (lk : Lookup) (fuel : Nat)
-    (hlk : LkSound r lk) (hd : DirsOnly r lk) :
+    (hlk : LkSound r lk) :
     (∀ s ∈ r.snaps, RestoresCorrectly r lk s.tree) ∨ check z true r lk fuel ≠ .findings [] := by
   by_cases h : check z true r lk fuel = .findings []
-  · exact Or.inl (check_sound hlk hd h)
+  · exact Or.inl (check_sound hlk h)
   · exact Or.inr h
 
 /-- (3) Index-only damage: after a clean check every tree and every file chunk a reader reaches is in the
 index (a dropped entry of a needed blob cannot go unnoticed). -/
 theorem clean_check_implies_reachable_indexed (z : Sizes) (r : Repo) (lk : Lookup) (fuel : Nat)
-    (hlk : LkSound r lk) (hd : DirsOnly r lk) (h : check z true r lk fuel = .findings [])
+    (hlk : LkSound r lk) (h : check z true r lk fuel = .findings [])
     (s : Snap) (hs : s ∈ r.snaps) (t : Id) (ht : Reach r lk s.tree t) :
     (lk .tree t).isSome ∧ ∃ nodes, readTree r lk t = some nodes ∧
       ∀ n ∈ nodes, n.kind = .file → ∃ ids, n.content = some ids ∧ ∀ d ∈ ids, (lk .data d).isSome := by
-  obtain ⟨_, nodes, hrd, hf⟩ := check_sound hlk hd h s hs t ht
+  obtain ⟨_, nodes, hrd, hf⟩ := check_sound hlk h s hs t ht
   obtain ⟨e, he⟩ := lk_of_readTree hrd
   refine ⟨by simp [he], nodes, hrd, fun n hn hk => ?_⟩
   obtain ⟨ids, hc, hall⟩ := hf n hn hk
@@ -123,10 +140,9 @@ def swapped11 : Repo :=
 def swapped12 : Repo := { good with snaps := [⟨2, false⟩, ⟨1, false⟩] }
 
 /-- Non-vacuity of the hypotheses and of the conclusion: a concrete undamaged repository is accepted. -/
-example : LkSound good (lkFirst good) ∧ DirsOnly good (lkFirst good) ∧ SnapshotsAuthentic good ∧
+example : LkSound good (lkFirst good) ∧ SnapshotsAuthentic good ∧
     check z0 true good (lkFirst good) 9 = .findings [] :=
-  ⟨lkFirst_sound _, dirsOnly_of_check (lkFirst_sound _) (by decide),
-    fun s hs => by simp [good] at hs; rcases hs with rfl | rfl <;> rfl, by decide⟩
+  ⟨lkFirst_sound _, fun s hs => by simp [good] at hs; rcases hs with rfl | rfl <;> rfl, by decide⟩
 
 /-- DESIGN §7 #11, the code before the repair: the exchange is silent although snapshot 1 now reads back
 the content of snapshot 2 … -/
@@ -152,15 +168,44 @@ theorem snapshot_swap_undetected :
   have := h ⟨2, false⟩ (by decide)
   simp at this
 
-/-- Why `DirsOnly` is needed: a *file* node carrying a subtree whose blob is damaged — the streamers load
-that tree, `check_trees` never looks at its pack. -/
+/-- Why "unmarked only" matters (history: backup, forget, prune marks the packs, backup again, the index file of the
+second backup is lost): the only index file left lists the tree pack 10 and the data pack 30 as *marked for
+deletion*; both are still stored. -/
+def markedOnly : Repo :=
+  { snapsOk := true, snaps := [⟨1, true⟩], indexOk := true,
+    index := [{ packs := [], toDelete := [{ id := 10, blobs := [tblob 1], timeSet := true, size := none },
+                                         { id := 30, blobs := [dblob 3], timeSet := true, size := none }] }],
+    files := [treeFile 10 10 1 [fileNode [3]], dataFile 30 3] }
+
+/-- the code (check's index = unmarked packs) reports the snapshot as unreadable — as every reader finds it … -/
+theorem marked_packs_not_in_check_index :
+    check z0 true markedOnly (lkOf (checkIndexPacks false markedOnly)) 9 = .findings [.ErrorCheckingTrees] ∧
+    ¬ RestoresCorrectly markedOnly (lkFirst markedOnly) 1 := by
+  refine ⟨by decide, fun h => ?_⟩
+  have := blobOkB_complete (h 1 Reach.root).1
+  revert this
+  decide
+
+/-- … whereas a check whose index also collected the marked packs would be clean on the same repository although
+no reader can restore the snapshot (replayed on the real code by the `remove.index` / `index.drop-pack` faults
+on repositories with a forget/prune history). -/
+theorem marked_packs_in_check_index_unsound :
+    checkW true z0 true markedOnly (lkOf (checkIndexPacks true markedOnly)) 9 = .findings [] ∧
+    ¬ RestoresCorrectly markedOnly (lkFirst markedOnly) 1 :=
+  ⟨by decide, marked_packs_not_in_check_index.2⟩
+
+/-- A *file* node carrying a subtree (tree 2, stored in pack 20) whose pack content is not what the index says: the
+streamers of ls / restore load that tree.  Before `fix: check ignored subtrees of non-directory nodes` `check_trees`
+never put pack 20 into the read set and the check was clean (DirsOnly was a hypothesis of the soundness theorem;
+replayed on the real code by corpus/C05/file_node_subtree.ops: `oracle-fail:silent:swap.pack` before the fix). -/
 def oddNode : Node := { kind := .file, subtree := some 2, content := some [3] }
 def odd : Repo :=
   { snapsOk := true, snaps := [⟨1, true⟩], indexOk := true, index := idx11,
     files := [treeFile 10 10 1 [oddNode], treeFile 20 20 7 [], dataFile 30 3, dataFile 40 4] }
 
-theorem non_dir_subtree_unread :
-    check z0 true odd (lkFirst odd) 9 = .findings [] ∧ ¬ RestoresCorrectly odd (lkFirst odd) 1 := by
+/-- the snapshot does not restore correctly, and the repaired check says so. -/
+theorem non_dir_subtree_checked :
+    check z0 true odd (lkFirst odd) 9 ≠ .findings [] ∧ ¬ RestoresCorrectly odd (lkFirst odd) 1 := by
   refine ⟨by decide, fun h => ?_⟩
   have hr : Reach odd (lkFirst odd) 1 2 :=
     Reach.step (nodes := [oddNode]) (n := oddNode) Reach.root (by decide) (by simp) rfl
